@@ -230,6 +230,7 @@ class SimDevice:
     def __init__(self, ctx, services, maxdata=4096, banner=b'device::\0', auth=None, rid_alloc=None, pick=None, gate=None, monitor=None, reorder=None):
         self.ctx = ctx
         self.eager = False
+        self.version = VERSION           # arg0 of the device's CNXN (may be symbolic)
         self.reorder = reorder            # callable(stream, candidates) -> index : ack vs. data ordering where adbd leaves it free
         self.services = services          # callable(dest_bytes) -> service object or None
         self.maxdata = maxdata
@@ -366,7 +367,7 @@ class SimDevice:
         if cmd == b'CNXN':
             self.log.append(('CNXN', p.a0, p.a1, p.payload))
             if self.auth is None:
-                self.ctrl.append((b'CNXN', VERSION, self.maxdata, self.banner))
+                self.ctrl.append((b'CNXN', self.version, self.maxdata, self.banner))
             else:
                 self.auth.on_cnxn(self, p)
             return
@@ -653,6 +654,8 @@ class AuthModel:
             self.events.append(('pubkey',))
             if self.accept[0] == 'pubkey':
                 self._cnxn(dev)
+            elif self.accept[0] == 'rechallenge':
+                self._challenge(dev)
 
 
 # ------------------------------------------------------------------------------------------------
